@@ -451,6 +451,7 @@ class FnAnalysis:
         self.paths = []
         self.uid = 0
         self.havoc_src = {}   # atom ('v', name) -> set of terms assigned to it
+        self.havoc_init = {}  # atom ('v', name) -> the values it had when its loop was entered (subset of havoc_src)
         self.params = {}      # name -> var id
         self.param_names = []
         self.read_filled = {}
@@ -1313,6 +1314,7 @@ class FnAnalysis:
             if var in s.env:
                 atom = V("loop%s:%s" % (lid, self.var_names.get(var, var)))
                 self.havoc_src.setdefault(atom, set()).add(s.env[var])
+                self.havoc_init.setdefault(atom, set()).add(s.env[var])
                 s.env[var] = atom
         # variables that are only mutated in place (field/index stores, &mut borrows) keep their structure but get a new version
         for var in mutated - assigned:
@@ -1469,6 +1471,16 @@ class FnAnalysis:
         g = self.facts.fn(fn)
         return g is not None and "Box<dyn" in (g.get("ret") or "") and any(w in (g.get("ret") or "") for w in ("Read", "Write"))
 
+    def _local_conversion(self, e, fn):
+        """`T::from(x)` whose impl is a local one for a helper type of the crate's own (a bundle of header fields, a pair struct): the call is
+        addressed to that impl so that it can be evaluated in place like any private helper (the policy decides; conversions of the domain
+        types the rules speak about keep their identity)"""
+        if fn == "core::convert::From::from":
+            r = e.get("resolved") or ""
+            if r.startswith("<") and self.facts.fn(r) is not None:
+                return r
+        return fn
+
     def can_inline(self, fn):
         if len(self.frames) >= 3 or fn in self.frames or fn == self.fn["path"]:
             return False
@@ -1524,6 +1536,7 @@ class FnAnalysis:
             if "f" in e:
                 vals = vals[1:]
             fn = e.get("fn") or ("<indirect:%s>" % e.get("fvar", "?"))
+            fn = self._local_conversion(e, fn)
             if self.can_inline(fn):
                 res = self.inline_call(e, s, fn, e["args"], vals)
                 if res is not None:
